@@ -34,16 +34,45 @@ def run(prop, step, tier, seed, env, work, ROOT):
         execs += sum(int(x) for x in m)
         os.remove(log)
     lines = []
-    arts = sorted(glob.glob(os.path.join(artifacts, "*")))
-    conv = os.path.join(env["CARGO_TARGET_DIR"], "release", "fuzz2case")
-    subprocess.run(["cargo", "build", "--release", "-p", "p_pools", "--bin", "fuzz2case"], cwd=harness, env=env, stdout=subprocess.PIPE, stderr=subprocess.STDOUT)
+    # only crashes (an aborting oracle, a panic, a sanitizer report) are failures; libFuzzer's
+    # slow-unit-* / timeout-* / oom-* files are about speed and memory under load: inconclusive
+    arts = sorted(glob.glob(os.path.join(artifacts, "crash-*")))
+    other_arts = [a for a in glob.glob(os.path.join(artifacts, "*")) if a not in arts]
+    pools = target == "pools_history"
+    if pools:
+        conv = os.path.join(env["CARGO_TARGET_DIR"], "release", "fuzz2case")
+        subprocess.run(["cargo", "build", "--release", "-p", "p_pools", "--bin", "fuzz2case"], cwd=harness, env=env, stdout=subprocess.PIPE, stderr=subprocess.STDOUT)
     for a in arts[:5]:
         out = os.path.join(ROOT, "violations", prop, "fuzz-%s.json" % os.path.basename(a)[:24])
         os.makedirs(os.path.dirname(out), exist_ok=True)
-        c = subprocess.run([conv, a, prop], stdout=subprocess.PIPE, text=True)
-        open(out, "w").write(c.stdout)
+        if pools:
+            # the saved input becomes a JSON replay of the proptest driver (same interpreter)
+            c = subprocess.run([conv, a, prop], stdout=subprocess.PIPE, text=True)
+            open(out, "w").write(c.stdout)
+        else:
+            # byte-level targets: the replay is the input itself, re-run through the target
+            json.dump({"property": prop, "fuzz_target": target, "input_hex": open(a, "rb").read().hex()}, open(out, "w"))
         lines.append("VIOLATION property=%s replay=%s signature=%s/fuzz/%s :: libFuzzer/ASan target failed on a generated history (input %s)" % (prop, out, prop, target, a))
-    sec = {"evaluations": execs, "nontrivial_evaluations": 0, "classes": {"corpus-files": len(os.listdir(corpus))}, "exhaustive": False,
+    sec = {"evaluations": execs, "nontrivial_evaluations": 0, "classes": {"corpus-files": len(os.listdir(corpus)), "slow/timeout/oom-artifacts(inconclusive)": len(other_arts)}, "exhaustive": False,
            "budget_exhausted": True, "excluded_known": 0, "wall_s": round(time.time() - t0, 1),
            "rule": "coverage-guided campaign (libFuzzer, AddressSanitizer build, %d jobs x %ds) on fuzz target %s: bytes decoded into the same history case as the proptest driver, same interpreter and oracles in-target; evaluations = executions reported by libFuzzer" % (jobs, secs, target)}
     return {"lines": lines, "code": 1 if arts else 0, "extra": {"sections": {"fuzz:" + target: sec}}}
+
+
+def replay(prop, path, env, ROOT):
+    """Re-runs one saved input of a byte-level fuzz target (replay file written by run())."""
+    j = json.load(open(path))
+    fuzz_dir = os.path.join(ROOT, "fuzz")
+    harness = os.path.join(ROOT, "harness")
+    e = dict(env)
+    e.pop("CARGO_TARGET_DIR", None)
+    e["RUSTFLAGS"] = "--cfg folo_verif"
+    tmp = os.path.join(ROOT, ".work", "fuzz-replay-input")
+    os.makedirs(os.path.dirname(tmp), exist_ok=True)
+    open(tmp, "wb").write(bytes.fromhex(j["input_hex"]))
+    r = subprocess.run(["cargo", "+nightly", "fuzz", "run", "--fuzz-dir", fuzz_dir, j["fuzz_target"], tmp, "--", "-runs=1"], cwd=harness, env=e, stdout=subprocess.PIPE, stderr=subprocess.STDOUT, text=True)
+    if r.returncode == 0:
+        return {"lines": ["REPLAY-PASS fuzz_target=%s" % j["fuzz_target"]], "code": 0}
+    m = re.search(r"ORACLE-FAILURE (\S+) :: (.*)", r.stdout)
+    sig = m.group(1) if m else "%s/fuzz/%s/crash" % (prop, j["fuzz_target"])
+    return {"lines": ["VIOLATION property=%s replay=%s signature=%s :: %s" % (prop, path, sig, m.group(2) if m else "the fuzz target crashed on this input")], "code": 1}
